@@ -112,3 +112,7 @@ Definition xadmissible (evs : list aev) : Prop :=
 Definition enc_xrun (r : xstate * list out) : list Z :=
   let '(s, o) := r in
   lenc (x_queue s) ++ [x_req s; x_count s; b2n (x_locked s)] ++ enc_toc (x_toc s) ++ flat_map enc_out o.
+
+(* _ExtendedTypeFetcher._disconnected (fix F03b): the link went away, the fetch is abandoned — port callback
+   removed, no completion callback, nothing in flight *)
+Definition x_disconnect (s : xstate) : xstate := mkX [] (-1) (x_count s) (x_toc s) false false.
